@@ -671,7 +671,7 @@ def run_scenario(ctx, names, src_levels, tts, as_dict, signs, kinds, with_none):
             for kind in kinds:
                 for lo in (False, True):
                     mid, desc = sc.target(kind)
-                    dyn = (not lo) and rng.random() < 0.25
+                    dyn = rng.random() < 0.25      # also with load_order=True: the loader switches it off first
                     if dyn:
                         s.op(mid, 'configure', 1)
                         s.op(mid, 'fire_in', rng.randint(1, 6))
@@ -756,6 +756,181 @@ def refused_files(ctx):
     s.close()
 
 
+def rejected_content(ctx):
+    """C17 `load_rejected`: a readable file whose content is ill-formed (a child that is not in
+    the file, a root that is not in the file, a level outside the file's range) makes the loader
+    raise half-way.  Whatever it did before raising: the structural invariant holds, every node
+    that was in the receiving manager is still there with the same triple, every held function
+    keeps its truth table, declared variables keep their level, the reordering switch is what it
+    was.  The model's outcome (error class, final state, counts) is compared line by line."""
+    rng = ctx.rng
+    s = Session(ctx)
+    names = ['a', 'b', 'c']
+    perm = list(names)
+    rng.shuffle(perm)
+    s.new(0, perm)
+    sp = Space(names)
+    bld = Builder(s)
+    roots = []
+    while len(roots) < 2:
+        t = rng.randrange(1, sp.full)
+        r = bld.build(sp, t)
+        if abs(r) != 1:
+            s.incref(0, r)
+            roots.append(r)
+    a1 = s.op(0, 'pdump', roots_show(roots))
+    a2 = s.op(0, 'jdump', roots_show(roots))
+    if not (a1.startswith('ok') or '|' in a1) or not (a2.startswith('ok') or '|' in a2):
+        pass
+    objs = s.impl.objs
+    # the two well-formed contents
+    pfile = [pth for fh, pth in objs['files'].items() if pth.endswith('.p')][-1]
+    jfile = [pth for fh, pth in objs['files'].items() if pth.endswith('.json')][-1]
+    dp = read_pickle(pfile)
+    dj = read_json(jfile)
+
+    def children(d_succ):
+        out = set()
+        for u, (i, v, w) in d_succ.items():
+            if v is not None:
+                out |= {abs(v), abs(w)}
+        return out - {1}
+
+    def corrupt_pickle(kind):
+        d = dict(vars=dict(dp['vars']), succ=dict(dp['succ']), roots=list(dp['roots']))
+        if kind == 'child':
+            ch = sorted(children(d['succ']))
+            if not ch:
+                return None
+            del d['succ'][rng.choice(ch)]
+        elif kind == 'root':
+            d['roots'] = list(d['roots']) + [max(d['succ']) + 5]
+        elif kind == 'level':
+            v = rng.choice(sorted(d['vars']))
+            d['vars'][v] = len(d['vars']) + 1
+        fh, path = _new_file(s.impl, '.p')
+        with open(path, 'wb') as f:
+            pickle.dump(d, f, protocol=2)
+        return fh, pickle_fields(read_pickle(path), False)
+
+    def corrupt_json(kind):
+        lov = dict(dj['level_of_var'])
+        nodes = list(dj['nodes'])
+        jroots = list(dj['roots'])
+        if kind == 'child':
+            ch = set()
+            for k, lvl, lo, hi in nodes:
+                ch |= {abs(x) for x in (lo, hi) if isinstance(x, int)}
+            if not ch:
+                return None
+            gone = rng.choice(sorted(ch))
+            nodes = [n for n in nodes if n[0] != gone]
+        elif kind == 'root':
+            jroots = jroots + [max([n[0] for n in nodes] + [1]) + 5]
+        elif kind == 'level':
+            if not nodes:
+                return None
+            k = rng.randrange(len(nodes))
+            n = nodes[k]
+            nodes[k] = (n[0], len(lov) + 3, n[2], n[3])
+        fh, path = _new_file(s.impl, '.json')
+        with open(path, 'w') as f:
+            f.write('{\n')
+            f.write('"level_of_var": ' + json.dumps(lov) + ',\n')
+            f.write('"roots": ' + json.dumps(jroots))
+            for k, lvl, lo, hi in nodes:
+                f.write(',\n' + f'"{k}": ' + json.dumps([lvl, lo, hi]))
+            f.write('\n}\n')
+        return fh, json_fields(read_json(path), False)
+
+    nid = [0]
+
+    def target():
+        nid[0] += 1
+        mid = nid[0]
+        kind = rng.choice(['fresh', 'other', 'extra'])
+        if kind == 'fresh':
+            s.new(mid, [])
+            return mid
+        order = list(names)
+        rng.shuffle(order)
+        if kind == 'extra':
+            order.insert(rng.randrange(len(order) + 1), 'x')
+        s.new(mid, order)
+        for _ in range(rng.randint(1, 4)):
+            x = s.val(s.op(mid, 'var', rng.choice(order)))
+            y = s.val(s.op(mid, 'var', rng.choice(order)))
+            r = s.val(s.op(mid, 'apply', rng.choice(['and', 'xor', 'or']), x, -y))
+            if rng.random() < 0.6 and abs(r) != 1:
+                s.incref(mid, r)
+        return mid
+
+    def run(label, mid, do):
+        b = s.mgr(mid)
+        old_succ = dict(b._succ)
+        old_vars = dict(b.vars)
+        old_conf = b.configure()
+        univ = sorted(set(old_vars) | set(names))
+        held = [u for u, c in s.ledger.get(mid, {}).items() if c > 0]
+        tt0 = TT(b, univ)
+        old_tt = {u: tt0.of(u) for u in held}
+        ans = do()
+        ctx.evaluations += 1
+        b = s.mgr(mid)
+        problems = []
+        if not ans.startswith('err'):
+            problems.append(f'ill-formed content accepted: {ans}')
+        problems += check_invariants(b)
+        for u, t in old_succ.items():
+            if u != 1 and b._succ.get(u) != t:
+                problems.append(f'node {u} was {t}, is {b._succ.get(u)}')
+        for v, l in old_vars.items():
+            if b.vars.get(v) != l:
+                problems.append(f'variable {v} was at level {l}, is at {b.vars.get(v)}')
+        if b.configure() != old_conf:
+            problems.append('the reordering switch changed')
+        tt1 = TT(b, sorted(set(b.vars) | set(names)))
+        tt0b = TT(b, univ) if set(b.vars) <= set(univ) else None
+        if tt0b is not None:
+            for u in held:
+                if tt0b.of(u) != old_tt[u]:
+                    problems.append(f'held node {u} denotes another function')
+        del tt1
+        for u in held:
+            if b._ref.get(u, 0) < 1:
+                problems.append(f'held node {u} lost its reference')
+        if problems:
+            ctx.violation(f'rejected load ({label})', dict(problems=problems[:4], got=ans,
+                          lines=list(s.lines[-3:]), tags=dict(call='load-rejected', what=label)))
+        s.state(mid)
+        ctx.case(('rejected', label))
+        ctx.count(f'rejected:{label}')
+
+    nh = [0]
+    for kind in ('child', 'root', 'level'):
+        c = corrupt_pickle(kind)
+        if c is not None:
+            fh, fields = c
+            for levels in (0, 1):
+                mid = target()
+                run(f'pickle:{kind}:levels={levels}', mid,
+                    lambda: s.op(mid, 'pload', fh, levels, *fields))
+            mid = target()
+            nh[0] += 1
+            hh = f'r{nh[0]}'
+            run(f'pickle-autoref:{kind}', mid, lambda: s.op(mid, 'pload_auto', fh, hh, 0, *fields))
+        c = corrupt_json(kind)
+        if c is not None:
+            fh, fields = c
+            mid = target()
+            nh[0] += 1
+            hh = f'r{nh[0]}'
+            run(f'json:{kind}', mid, lambda: s.op(mid, 'jload', fh, hh, 0, *fields))
+    ctx.add_session(s, SECTIONS_L3, 'C12/C17 rejected content')
+    s.close()
+
+
+
 def build_driver():
     """`lib.lean_side` builds `ddvdrv` only; this slice's sessions are replayed on `ddvdump`."""
     import subprocess
@@ -821,6 +996,8 @@ def check_C12(ctx):
         run_scenario(ctx, abc, [('a', 0), ('b', 1), ('c', 2)], [0b11111111, 0b10001000], True, [1, -1],
                      ['fresh', 'same'], with_none=False)
         witness_json_reordering_flag(ctx)
+        for _ in range(2 if ctx.tier == 'quick' else 25):
+            rejected_content(ctx)
         n = 0
         budget_tail = 25 if ctx.tier == 'quick' else 60
         total = 250 if ctx.tier == 'quick' else 4000
